@@ -109,7 +109,7 @@ def tagged_object_below_unknown_key(draw, spec, t):
     return T.set_at(t, p, mp)
 
 
-def duplicate_tagged(draw, spec):
+def duplicate_tagged(draw, spec, subs=None):
     """(spec', tree): a document of a class whose duplicate keys the automatic
     recogniser does not see (custom _yatiml_recognize, or two spellings that
     dashes_to_unders_in_keys makes collide), with a tagged Trap object under
@@ -140,8 +140,8 @@ def duplicate_tagged(draw, spec):
         key = draw(st.sampled_from(und)).replace('_', '-')
     else:
         key = draw(st.sampled_from(names))
-    sub = draw(st.sampled_from([T.M([], '!Trap'), T.M([('a', T.S('1'))], '!Trap'),
-                                T.Q([T.M([], '!Trap')])]))
+    sub = draw(st.sampled_from(subs or [T.M([], '!Trap'), T.M([('a', T.S('1'))], '!Trap'),
+                                        T.Q([T.M([], '!Trap')])]))
     t = copy.deepcopy(t)
     t[1].append([T.S(key), sub])
     return spec2, t
